@@ -806,3 +806,81 @@ M('c17-disconnected-handler-closes-directly', 'C17', 'R3', APP,
 M('c17-python-handler-direct-close-fallback-only-for-valueerror', 'C17', 'R3', APP, _PY_WS,
   "        elif ws:\n            try:\n                await ws.close(self.ws_options.error_close_code)\n            except ValueError:\n"
   "                await ws.close(_FALLBACK_WS_ERROR_CODE)\n        else:\n")
+
+# ------------------------------------------------------------------ the state guard read through a local snapshot; one trailing emission
+# (behaviour-preserving form: preserving/k1-c17-1; each mutant is that refactoring PLUS a break)
+_REQ_ACC = """        if self._state == _WebSocketState.HANDSHAKE:
+            raise errors.OperationNotAllowed(
+                'WebSocket connection has not yet been accepted'
+            )
+        elif self._state == _WebSocketState.CLOSED:
+            raise errors.WebSocketDisconnected(self._close_code)
+"""
+M('c17-guard-local-state-closed-dropped', 'C17', 'R1', 'falcon/asgi/ws.py', _REQ_ACC, """        state = self._state
+        if state == _WebSocketState.HANDSHAKE:
+            raise errors.OperationNotAllowed(
+                'WebSocket connection has not yet been accepted'
+            )
+""", also=('C18',))
+M('c17-guard-local-state-wrong-member', 'C17', 'R1', 'falcon/asgi/ws.py', _REQ_ACC, """        state = self._state
+        if state == _WebSocketState.HANDSHAKE:
+            raise errors.OperationNotAllowed(
+                'WebSocket connection has not yet been accepted'
+            )
+        if state == _WebSocketState.ACCEPTED:
+            raise errors.WebSocketDisconnected(self._close_code)
+""", also=('C18',))
+_SEND_MEDIA_TAIL = """        if payload_type is WebSocketPayloadType.TEXT:
+            await self._send(
+                {
+                    'type': EventType.WS_SEND,
+                    'text': self._mh_text_serialize(media),
+                }
+            )
+        else:
+            await self._send(
+                {
+                    'type': EventType.WS_SEND,
+                    'bytes': self._mh_bin_serialize(media),
+                }
+            )
+"""
+M('c17-send-media-merged-wrong-serializer', 'C17', 'R10', 'falcon/asgi/ws.py', _SEND_MEDIA_TAIL, """        if payload_type is WebSocketPayloadType.TEXT:
+            event = {
+                'type': EventType.WS_SEND,
+                'text': self._mh_bin_serialize(media),
+            }
+        else:
+            event = {
+                'type': EventType.WS_SEND,
+                'bytes': self._mh_bin_serialize(media),
+            }
+
+        await self._send(event)
+""")
+M('c17-send-media-merged-swapped-branches', 'C17', 'R10', 'falcon/asgi/ws.py', _SEND_MEDIA_TAIL, """        if payload_type is not WebSocketPayloadType.TEXT:
+            event = {
+                'type': EventType.WS_SEND,
+                'text': self._mh_text_serialize(media),
+            }
+        else:
+            event = {
+                'type': EventType.WS_SEND,
+                'bytes': self._mh_bin_serialize(media),
+            }
+
+        await self._send(event)
+""")
+# the text literal is built for TEXT but overwritten before the one emission
+M('c17-send-media-merged-literal-overwritten', 'C17', 'R10', 'falcon/asgi/ws.py', _SEND_MEDIA_TAIL, """        if payload_type is WebSocketPayloadType.TEXT:
+            event = {
+                'type': EventType.WS_SEND,
+                'text': self._mh_text_serialize(media),
+            }
+        event = {
+            'type': EventType.WS_SEND,
+            'bytes': self._mh_bin_serialize(media),
+        }
+
+        await self._send(event)
+""")
